@@ -361,6 +361,28 @@ def f27_stat_error_absent(xcp, d):
             break
     return bad
 
+def f28_created_through_dangling(xcp, d):
+    """C02: a regular file must not be created through a dangling symlink at its destination"""
+    bad = []
+    for drv in ("parfile", "parblock"):
+        w = os.path.join(d, drv); os.makedirs(w)
+        open(os.path.join(w, "f"), "w").write("new\n"); os.symlink(os.path.join(w, "outside"), os.path.join(w, "dang"))
+        rc, err = run(xcp, ["--driver", drv, "f", "dang"], w)
+        if os.path.exists(os.path.join(w, "outside")):
+            bad.append("%s: exit %d, the link's target was created" % (drv, rc))
+    return bad
+
+def f29_dir_through_symlink(xcp, d):
+    """C02: `xcp -r src dest` with dest/src/sub a symlink to a directory must not write src/sub's contents through it"""
+    bad = []
+    for drv in ("parfile", "parblock"):
+        w = os.path.join(d, drv); os.makedirs(os.path.join(w, "src", "sub")); os.makedirs(os.path.join(w, "dest", "src")); os.makedirs(os.path.join(w, "other"))
+        open(os.path.join(w, "src", "sub", "x"), "w").write("x\n"); os.symlink("../../other", os.path.join(w, "dest", "src", "sub"))
+        rc, err = run(xcp, ["-r", "--driver", drv, "src", "dest"], w)
+        if os.listdir(os.path.join(w, "other")):
+            bad.append("%s: exit %d, %s written outside the destination" % (drv, rc, os.listdir(os.path.join(w, "other"))))
+    return bad
+
 ALL = {"new:create-before-identity-check": f1_self_copy, "parfile:symlink-result-discarded": f2_symlink_result,
        "copy_node:dev-not-rdev": f3_device_number, "parblock:short-copy-not-retried": f5_short_copy,
        "walker:deref-does-not-follow-dir-links": f8_deref_dir_link, "finalise:chown-after-chmod": f9_setid_ownership,
@@ -380,7 +402,8 @@ ALL = {"new:create-before-identity-check": f1_self_copy, "parfile:symlink-result
        "backup:number-beyond-u64": f24_backup_number_beyond_u64,
        "parblock:no-extent-map-dense-copy": f25_parblock_tmpfs_sparse,
        "xattr:first-failure-stops-the-rest": f26_xattr_first_failure,
-       "stat-error-taken-for-absent": f27_stat_error_absent}
+       "stat-error-taken-for-absent": f27_stat_error_absent,
+       "new:created-through-dangling-link": f28_created_through_dangling, "walker:dir-through-existing-symlink": f29_dir_through_symlink}
 
 def main():
     repo = sys.argv[1]
